@@ -66,6 +66,7 @@ func (s *State) set(name string, t *Term) { s.heaps[name] = t }
 type assumeRec struct {
 	mark int
 	t    *Term
+	blk  *ssa.BasicBlock // block of the verified function that was being executed (nil: before/after the body)
 }
 
 type Obligation struct {
@@ -94,6 +95,7 @@ type Obligation struct {
 	relaxed bool
 	refute  *Term
 	parts   []*Term // conjuncts of the goal that may be discharged separately (one per return path)
+	partBlk []*ssa.BasicBlock // return block of each part: hypotheses recorded in blocks that cannot reach it are left out of that part's query
 	partIdx int     // >0: query only parts[partIdx-1]
 	Relaxed bool // counterexample found only after dropping quantified hypotheses
 }
@@ -122,6 +124,9 @@ type Ctx struct {
 	nameBase  string
 	h0pos     map[string]int
 	splits    [][]*Term // each entry: exhaustive list of case hypotheses
+	curBlk    *ssa.BasicBlock // block of the verified function being executed
+	topVars   map[string]Val // named parameters of the function under verification
+	pow2Lo, pow2Hi int  // exponent range of the function's `split ... pow2` directive (0,0: none)
 	trivialSafety int
 	witness   []witnessTerm
 	dynAlloc  bool               // objects other than plain locals were allocated (make, append, map, boxes)
@@ -231,7 +236,7 @@ func (cx *Ctx) assume(t *Term) {
 	if isTrue(t) {
 		return
 	}
-	cx.assumes = append(cx.assumes, assumeRec{mark: cx.w.b.Mark(), t: t})
+	cx.assumes = append(cx.assumes, assumeRec{mark: cx.w.b.Mark(), t: t, blk: cx.curBlk})
 }
 
 func (cx *Ctx) undecide(format string, args ...interface{}) {
@@ -444,6 +449,14 @@ func (cx *Ctx) inMod(l *Term, srt Sort, m ModLoc) *Term {
 	switch {
 	case m.all:
 		return b.True()
+	case m.allOf != nil:
+		if isLeafType(m.allOf) {
+			if cx.w.sortOf(m.allOf) == srt {
+				return b.True()
+			}
+			return b.False()
+		}
+		return cx.inside(l, m.allOf, srt, func(x *Term) *Term { return b.True() })
 	case m.loc != nil:
 		return cx.inside(l, m.typ, srt, func(x *Term) *Term { return b.Eq(x, m.loc) })
 	case m.elems != nil:
@@ -905,6 +918,21 @@ func (o *Obligation) queryLocked(getModel bool, hyp *Term) string {
 	w := cx.w
 	var body strings.Builder
 	di := 0
+	var ancestors map[*ssa.BasicBlock]bool
+	if o.partIdx > 0 && o.partIdx-1 < len(o.partBlk) && o.partBlk[o.partIdx-1] != nil {
+		ancestors = map[*ssa.BasicBlock]bool{}
+		var up func(x *ssa.BasicBlock)
+		up = func(x *ssa.BasicBlock) {
+			if ancestors[x] {
+				return
+			}
+			ancestors[x] = true
+			for _, p := range x.Preds {
+				up(p)
+			}
+		}
+		up(o.partBlk[o.partIdx-1])
+	}
 	for i := 0; i < o.nAssume; i++ {
 		a := cx.assumes[i]
 		if a.mark > di {
@@ -913,6 +941,9 @@ func (o *Obligation) queryLocked(getModel bool, hyp *Term) string {
 		}
 		if ((o.IsCover && !o.FullCover) || o.relaxed) && hasQuantifier(a.t, map[int]bool{}) {
 			continue // covers check the quantifier-free part of the hypotheses
+		}
+		if ancestors != nil && a.blk != nil && !ancestors[a.blk] {
+			continue // recorded on a path that cannot lead to this return (dropping hypotheses is always sound)
 		}
 		body.WriteString("(assert ")
 		a.t.write(&body)
@@ -1037,4 +1068,40 @@ func zeroOfSort(w *World, s Sort) string {
 		return w.b.BV(0, n).op
 	}
 	return ""
+}
+
+// udivrem models an unsigned division / remainder by a non-constant divisor in a
+// function that declares a power-of-two case split: for the divisors 2^lo..2^hi
+// the result is the shift / mask, for any other divisor it is an uninterpreted
+// function of the operands (an over-approximation: nothing is known about it).
+// This keeps divider circuits out of the queries; the code and the contracts
+// use the same expansion.
+func (cx *Ctx) udivrem(rem bool, x, d *Term) *Term {
+	b, w := cx.w.b, cx.w
+	bits, _ := x.sort.IsBV()
+	op := "bvudiv"
+	if rem {
+		op = "bvurem"
+	}
+	if cx.pow2Hi == 0 || isLit(def(d)) || bits < 32 {
+		return b.BVOp(op, x, d)
+	}
+	nm := fmt.Sprintf("uf_%s%d", op, bits)
+	w.uninterp[nm] = fmt.Sprintf("(%s %s) %s", x.sort, x.sort, x.sort)
+	res := b.mk(nm, x.sort, x, d)
+	hi := cx.pow2Hi
+	if hi > bits-1 {
+		hi = bits - 1
+	}
+	for k := hi; k >= cx.pow2Lo; k-- {
+		var v *Term
+		if rem {
+			v = b.BVOp("bvand", x, b.BV(uint64(1)<<uint(k)-1, bits))
+		} else {
+			v = b.BVOp("bvlshr", x, b.BV(uint64(k), bits))
+		}
+		res = b.Ite(b.Eq(d, b.BV(uint64(1)<<uint(k), bits)), v, res)
+	}
+	cx.trust("unsigned division/remainder by a symbolic divisor: exact for the power-of-two divisors of the declared case split, unconstrained result otherwise")
+	return res
 }
